@@ -60,7 +60,7 @@ def check_plateau(ctx, st: Strategy, clsname: str, adaptive: bool, exp: bool):
     for sf in st.stores:
         inst = f"{clsname}: store at {sf.loc()} over samples [{sym.show(sf.lo)}, {sym.show(sf.hi)})"
         ok_root = any(veq(sf.root, y) for y in st.Y_ext_all)
-        ctx.check(ok_root and sf.index == st.k * n + st.i, 'C05.1', inst + ' writes sample i of the same interval k of the result array',
+        ctx.check(ok_root and sf.index == st.k * n + (sf.lo if sf.single else st.i), 'C05.1', inst + ' writes sample i of the same interval k of the result array',
                   f"index {sym.show(sf.index)}; root {show(sf.root, 120)}", sf.loc(), st.rfa.qualname, f"same-interval:{sym.show(sf.lo)}")
     # chains of sub-ranges that meet exactly (a.hi == b.lo): each chain must be the left window [0, a_l)
     # or the right window [n - a_r (+1), n (+1)) - equalities only, no inequality reasoning
@@ -236,46 +236,46 @@ def _is_y(ref, st: Strategy) -> bool:
     return isinstance(ref, Ref) and ref.term is not None and any(veq(ref.term, y) for y in st.Y_ext_all)
 
 
-def check_window_sizes(ctx):
-    ctx.rule('C05.2', 'window sizes: a = int(alpha*n) unless a is given (then int(a)), floored at 2; fixed strategies a_l = a_r = int(a/2); '
+def check_window_sizes(ctx, rule='C05.2'):
+    ctx.rule(rule, 'window sizes: a = int(alpha*n) unless a is given (then int(a)), floored at 2; fixed strategies a_l = a_r = int(a/2); '
                       'b = int(beta*a_l); compared as canonical expressions (conditional floor == max)')
     for clsname, adaptive, exp in WINDOW:
         for a_given in (False, True):
             st = strategy(ctx.prog, clsname, a_given=a_given)
             if st.issues:
-                raise AnalysisError(f"C05.2: {clsname}.__init__ not canonicalisable: {st.issues[:3]}")
+                raise AnalysisError(f"{rule}: {clsname}.__init__ not canonicalisable: {st.issues[:3]}")
             env = {'n': Num(st.n)}
             for p, s in st.param_syms.items():
                 env[p] = Num(s)
             need = ['alpha'] + (['beta'] if exp else [])
             for p in need:
                 if p not in st.param_syms:
-                    raise AnalysisError(f"C05.2: {clsname}.__init__ has no {p} parameter")
+                    raise AnalysisError(f"{rule}: {clsname}.__init__ has no {p} parameter")
             sp = SpecEnv(ctx.prog, env)
             if a_given:
                 if 'a' not in st.param_syms:
-                    raise AnalysisError(f"C05.2: {clsname}.__init__ has no a parameter")
+                    raise AnalysisError(f"{rule}: {clsname}.__init__ has no a parameter")
                 sp.exec('a0 = int(a)\n')
             else:
                 sp.exec('a0 = int(alpha * n)\n')
             sp.exec('A = max(a0, 2)\nAL = int(A / 2)\n')
             tag = f"{clsname}({'a given' if a_given else 'a from alpha'})"
             fa = st.init_fields.get('a')
-            ctx.check(isinstance(fa, Num) and fa.r == sp.rat('A'), 'C05.2', f"{tag}: window a", f"code {show(fa, 200)}; spec {sym.show(sp.rat('A'))}",
+            ctx.check(isinstance(fa, Num) and fa.r == sp.rat('A'), rule, f"{tag}: window a", f"code {show(fa, 200)}; spec {sym.show(sp.rat('A'))}",
                       st.init.loc(), st.init.qualname, f"a:{a_given}")
             if not adaptive:
                 for f in ('a_l', 'a_r'):
                     fv = st.init_fields.get(f)
-                    ctx.check(isinstance(fv, Num) and fv.r == sp.rat('AL'), 'C05.2', f"{tag}: {f} = int(a/2)",
+                    ctx.check(isinstance(fv, Num) and fv.r == sp.rat('AL'), rule, f"{tag}: {f} = int(a/2)",
                               f"code {show(fv, 200)}; spec {sym.show(sp.rat('AL'))}", st.init.loc(), st.init.qualname, f"{f}:{a_given}")
                 if exp:
                     sp.exec('B = int(beta * AL)\n')
                     fv = st.init_fields.get('b')
-                    ctx.check(isinstance(fv, Num) and fv.r == sp.rat('B'), 'C05.2', f"{tag}: b = int(beta*a_l)",
+                    ctx.check(isinstance(fv, Num) and fv.r == sp.rat('B'), rule, f"{tag}: b = int(beta*a_l)",
                               f"code {show(fv, 200)}; spec {sym.show(sp.rat('B'))}", st.init.loc(), st.init.qualname, f"b:{a_given}")
             elif exp:
                 fv = st.init_fields.get('beta')
-                ctx.check(isinstance(fv, Num) and fv.r == st.param_syms.get('beta'), 'C05.2', f"{tag}: beta stored unchanged",
+                ctx.check(isinstance(fv, Num) and fv.r == st.param_syms.get('beta'), rule, f"{tag}: beta stored unchanged",
                           show(fv, 100), st.init.loc(), st.init.qualname, f"beta:{a_given}")
 
 
@@ -353,6 +353,14 @@ def run(ctx):
     ctx.floor('C05.3', total, 24, 'stored values checked for constant reproduction')
     check_window_sizes(ctx)
     check_adaptive_sum(ctx)
+    from . import c06
+    ctx.rule('C05.7', 'the adaptive split is computed from the constructor\'s window size a (and smoothing) and the extended averages: the bound "at most a - 1 samples differ" refers to that a')
+    c06.check_adaptive_forwarding(ctx, 'C05.7')
+    ctx.rule('C05.8', 'tie cases (equal neighbouring averages: a window, or its linear part, of zero samples), one scenario at a time: every store has an '
+                      'empty sample range, stores the documented shape with the zero windows substituted, or re-writes the plateau value - so a flat stretch '
+                      'stays flat and no placeholder value of a tie branch reaches a sample')
+    n_t = c06.check_ties(ctx, 'LinearAdaptiveRFA', False, rule='C05.8') + c06.check_ties(ctx, 'ExpAdaptiveRFA', True, rule='C05.8')
+    ctx.floor('C05.8', n_t, 40, 'stores examined under tie scenarios')
     check_other_strategies(ctx)
     ctx.notes.append('Derived by hand from C05.1 + C05.2 + C06.2 (not machine-checked): at most a_l + a_r - 1 <= a - 1 samples of an interval '
                      'differ from its average, because sample 0 of the left piece and the plateau-side anchors equal the documented end values.')
